@@ -596,3 +596,28 @@ def fs14(P, C):
          "the knot vectors are not located by a move by name to KNOTS<i> in the iteration that reads them (moves by name: %s)" % [m[1] for m in moves])
     C.ob("FS-14", "read_fits_core", "extents-by-name", len(ex) == 1 and ex[0][2] == 0, rf.loc(ex[0][0]) if ex else rf.where(),
          "the extents are located by a move by name to EXTENTS (IMAGE_HDU)" if ex else "no move by name to EXTENTS")
+
+
+def sm9(P, C):
+    """SM-9: the helpers through which all table storage goes request exactly what they are asked for."""
+    C.rule("SM-9", "`allocate<T>(n)` hands the allocator the count n itself, and `deallocate(p, n)` the same: the size model of estimateMemory adds "
+           "up n*sizeof(T) per array (and three small requests per auxiliary key), so a helper that rounds every request up — to cache lines, "
+           "to a minimum — makes the bytes requested exceed the estimate as soon as there are many small arrays", floor=8)
+    n = 0
+    for f in sorted(P.functions.values(), key=lambda g: (g.name, str(g.targs))):
+        if f.unit != "driver" or f.cls != ts.CLS or f.name not in ("allocate", "deallocate"):
+            continue
+        cnt = f.params[0]["id"] if f.name == "allocate" else f.params[1]["id"]
+        calls = [i for i, cal in f.calls() if cal and cal["name"] == f.name and "allocator_traits" in cal.get("qname", "")]
+        if not calls:
+            continue
+        for i in calls:
+            a = f.args(i)
+            arg = f.strip(a[1] if f.name == "allocate" else a[2])
+            ok = f.k(arg) == "DeclRefExpr" and f.nodes[arg]["decl"].get("id") == cnt
+            n += 1
+            C.ob("SM-9", "%s<%s>" % (f.name, ",".join(str(t) for t in f.targs)[:40]), "exact-count", ok, f.loc(i),
+                 "the allocator is asked for exactly n objects" if ok else
+                 "the allocator is asked for `%s` objects instead of the n the caller named: the size model counts n*sizeof(T)" % f.render(arg)[:60])
+    if n == 0:
+        raise core.AnalysisBroken("SM-9: the allocate / deallocate helpers were not found")
